@@ -6,9 +6,10 @@ from lib import fw
 
 PROP = 'C04'
 COQ_HEADER = 'From FV Require Import Model.C04_Model.'
-COQ_AGREE = 'C04_agree'
+COQ_AGREE = 'C04_agree_any'
 COQ_MODEL_TARGETS = ['Model/C04_Model']
-RULE = ('grid N 0..12 x bs 1..2N+3 x num_epochs {None,1,2,3} x num_steps {None,0,1,2,5,9} x drop_remainder x '
+RULE = ('exhaustive count sweep N, bs in 1..40 x num_epochs 1..16 x drop_remainder (quick; 1..96 x 1..24 thorough) against exact integer arithmetic and, in Coq, against the translated computation; '
+        'grid N 0..12 x bs 1..2N+3 x num_epochs {None,1,2,3} x num_steps {None,0,1,2,5,9} x drop_remainder x '
         'skip_shuffle, seeds from VERIF_SEED, plus random larger (N, bs); every 9th grid case draws from a dataset obtained by slicing a larger parent; four call forms (hparams object, keywords, view class directly, hparams '
         'object overridden by keywords incl. overrides to None); every view iterated twice + a fresh view + two interleaved '
         'live iterators (same view; two different clients\' views) + a pass in pieces + other views of the same dataset in between + kept results; '
@@ -31,6 +32,11 @@ def generate(tier, rng):
   else:
     ns, epochs, steps = range(0, 13), [None, 0, 1, 2, 3, 4], [None, 0, 1, 2, 5, 9, 17]
     nrand = 400
+  # exhaustive sweep of the batch-count computation: one case per dataset size N, covering every
+  # batch size 1..bshi x num_epochs 1..ehi x drop_remainder (counts read without iterating)
+  nhi, bshi, ehi = (40, 40, 16) if tier == 'quick' else (96, 96, 24)
+  for n in range(1, nhi + 1):
+    yield {'sweep': [n, bshi, ehi]}
   i = 0
   for n in ns:
     for bs in range(1, 2 * n + 4):
@@ -292,7 +298,58 @@ def _other_case(case):
           'epochs': None, 'steps': None, 'pslice': None}
 
 
+def _exact_count(n, bs, e, drop):
+  return (n * e) // bs if drop else -((-n * e) // bs)
+
+
+def _run_sweep(case):
+  """Counts for one dataset size: the number of steps every view computed (the view's `_num_steps`,
+  the only len-like observation there is; stated use of a private attribute), cross-checked by
+  counted iteration wherever the count is at most 6; counted iteration for everything if the
+  attribute is gone."""
+  import fedjax
+  n, bshi, ehi = case['sweep']
+  ds = fedjax.ClientDataset({'x': np.arange(n, dtype=np.int32)})
+  counts, bad = [], None
+  for bs in range(1, bshi + 1):
+    for e in range(1, ehi + 1):
+      for drop in (False, True):
+        view = ds.shuffle_repeat_batch(batch_size=bs, num_epochs=e, drop_remainder=drop, seed=0, skip_shuffle=True)
+        k = getattr(view, '_num_steps', None)
+        if k is None or not float(k).is_integer():
+          k = sum(1 for _ in itertools.islice(iter(view), 100000))
+        elif k <= 6:
+          it = sum(1 for _ in itertools.islice(iter(view), 50))
+          if it != k and bad is None:
+            bad = [bs, e, drop, int(k), it]
+        counts.append(int(k))
+  return {'counts': counts, 'attr_vs_iteration': bad}
+
+
+def _sweep_single(n, bs, e, drop):
+  return {'n': n, 'bs': bs, 'epochs': e, 'steps': None, 'drop': drop, 'skip': True, 'seed': 0, 'kw': False, 'form': 1}
+
+
+def _oracle_sweep(case, obs):
+  n, bshi, ehi = case['sweep']
+  out, j = [], 0
+  for bs in range(1, bshi + 1):
+    for e in range(1, ehi + 1):
+      for drop in (False, True):
+        want = _exact_count(n, bs, e, drop)
+        if j >= len(obs['counts']) or obs['counts'][j] != want:
+          got = obs['counts'][j] if j < len(obs['counts']) else None
+          return [('num-batches', f'N={n} batch_size={bs} num_epochs={e} drop_remainder={drop}: {got} batches, documented count is {want}')]
+        j += 1
+  if obs['attr_vs_iteration']:
+    bs, e, drop, k, it = obs['attr_vs_iteration']
+    out.append(('num-batches', f'N={n} batch_size={bs} num_epochs={e} drop_remainder={drop}: the view computed {k} steps but yields {it} batches'))
+  return out
+
+
 def run(case):
+  if 'sweep' in case:
+    return _run_sweep(case)
   info = {}
   with _Recorder() as rec:
     view = _view(case, info)           # constructed and first iterated under the recorder
@@ -355,7 +412,7 @@ def run(case):
 
 
 def hang_key(case):
-  return 'hang.empty-dataset' if case['n'] == 0 else 'hang'
+  return 'hang.empty-dataset' if case.get('n') == 0 else 'hang'
 
 
 def _expected_count(case):
@@ -375,6 +432,8 @@ def _windows(case, obs):
 
 
 def oracle(case, obs):
+  if 'sweep' in case:
+    return _oracle_sweep(case, obs)
   out = []
   n, bs = case['n'], case['bs']
   batches = obs['batches']
@@ -444,6 +503,9 @@ def oracle(case, obs):
 
 
 def encode(case, obs):
+  if 'sweep' in case:
+    n, bshi, ehi = case['sweep']
+    return f'(CCount {n}%Z {bshi}%Z {ehi}%Z, OCount ({fw.zlist(obs["counts"])})%Z)'
   n = case['n']
   stream, wins = _windows(case, obs)
   exp = _expected_count(case)
@@ -452,15 +514,19 @@ def encode(case, obs):
   # the oracle handed to the model is the recorded sequence of rng.shuffle results
   windows = fw.clist([fw.natlist(w) for w in obs['shuffles']])
   obs_t = fw.clist([fw.natlist(b) for b in obs['batches']])
-  return (f'(mkC04 {n}%nat {case["bs"]}%Z {fw.optz(case["epochs"])}%Z {fw.optz(case["steps"])}%Z '
-          f'{fw.cbool(case["drop"])} {fw.cbool(case["skip"])} {windows}, ({obs_t} : C04_obs))')
+  return (f'(CSingle (mkC04 {n}%nat {case["bs"]}%Z {fw.optz(case["epochs"])}%Z {fw.optz(case["steps"])}%Z '
+          f'{fw.cbool(case["drop"])} {fw.cbool(case["skip"])} {windows}), OSingle ({obs_t} : C04_obs))')
 
 
 def nontrivial(case, obs):
+  if 'sweep' in case:
+    return True
   return case['n'] >= 1 and len(obs['batches']) >= 1
 
 
 def describe(case, obs):
+  if 'sweep' in case:
+    return {'kind': 'count-sweep', 'sweep_combinations': len(obs['counts'])}
   n, bs = case['n'], case['bs']
   return {'N_vs_bs': 'empty' if n == 0 else 'lt' if n < bs else 'eq' if n == bs else 'multiple' if n % bs == 0 else 'gt',
           'epochs': case['epochs'], 'steps': case['steps'], 'skip': case['skip'], 'drop': case['drop'],
@@ -475,6 +541,14 @@ def describe(case, obs):
 
 
 def shrink(case):
+  if 'sweep' in case:      # narrow the ranges, then hand over to an ordinary single case
+    n, bshi, ehi = case['sweep']
+    for cand in ([n, bshi // 2, ehi], [n, bshi, ehi // 2], [n, bshi - 1, ehi], [n, bshi, ehi - 1]):
+      if cand[1] >= 1 and cand[2] >= 1 and cand != case['sweep']:
+        yield {'sweep': cand}
+    for drop in (False, True):       # the last combination of the narrowed sweep as an ordinary (iterated) case
+      yield _sweep_single(n, bshi, ehi, drop)
+    return
   for k, lo in (('n', 0), ('bs', 1)):
     v = case[k]
     for c in sorted({lo, v // 2, v - 1}):
